@@ -1,5 +1,5 @@
 (* C06: the monitor of Run/C06.v accepts every run of the model (calls over the universe). *)
-From SC Require Import Lib.Prelude Lib.Int Lib.Host Model.RoleTransfer Model.Access Proofs.Access Run.C06.
+From SC Require Import Lib.Prelude Lib.Int Lib.Host Model.RoleTransfer Model.Access Model.AllowList Proofs.Access Run.C06.
 From SC Require Proofs.RoleTransfer Run.C07 Proofs.C07Monitor.
 From Coq Require Import Permutation.
 
@@ -119,10 +119,10 @@ Proof.
   apply index_of_nth in Ek. cbn [observe ob_tokens]. apply (nth_o_map _ _ (n_owner (a_nft s))). exact Ek.
 Qed.
 
-Lemma obs_appr_model : forall u s t, In t (u_tokens u) -> obs_appr u (observe u s) t = n_appr (a_nft s) t.
+Lemma obs_appr_model : forall u s t, In t (u_tokens u) -> obs_appr u (observe u s) t = approved_of (a_now s) (a_nft s) t.
 Proof.
   intros u s t Ht. unfold obs_appr. destruct (index_of_in t _ Ht) as [k Ek]. rewrite Ek.
-  apply index_of_nth in Ek. cbn [observe ob_approved]. apply (nth_o_map _ _ (n_appr (a_nft s))). exact Ek.
+  apply index_of_nth in Ek. cbn [observe ob_approved]. apply (nth_o_map _ _ (approved_of (a_now s) (a_nft s))). exact Ek.
 Qed.
 
 Lemma obs_authority_model : forall u s r caller, Cl u s -> In caller (u_accounts u) -> In r (u_roles u) ->
@@ -291,13 +291,18 @@ Proof. intros u s s' H. rewrite !role_admins_model, H. apply eqb_list_refl. appl
 Lemma same_own_b : forall u s s', n_owner (a_nft s') = n_owner (a_nft s) ->
   eqb_list eqb_on (ob_tokens (observe u s')) (ob_tokens (observe u s)) = true.
 Proof. intros u s s' H. cbn [observe ob_tokens]. rewrite H. apply eqb_list_refl. apply eqb_on_refl. Qed.
-Lemma same_appr_b : forall u s s', n_appr (a_nft s') = n_appr (a_nft s) ->
+Lemma same_appr_b : forall u s s', a_now s' = a_now s -> n_appr (a_nft s') = n_appr (a_nft s) ->
   eqb_list eqb_on (ob_approved (observe u s')) (ob_approved (observe u s)) = true.
-Proof. intros u s s' H. cbn [observe ob_approved]. rewrite H. apply eqb_list_refl. apply eqb_on_refl. Qed.
-Lemma same_tok_b : forall u s s', a_nft s' = a_nft s ->
+Proof.
+  intros u s s' Hn H. cbn [observe ob_approved].
+  replace (map (approved_of (a_now s') (a_nft s')) (u_tokens u)) with (map (approved_of (a_now s) (a_nft s)) (u_tokens u)).
+  - apply eqb_list_refl. apply eqb_on_refl.
+  - apply map_ext. intros t. unfold approved_of. rewrite H, Hn. reflexivity.
+Qed.
+Lemma same_tok_b : forall u s s', a_now s' = a_now s -> a_nft s' = a_nft s ->
   eqb_list eqb_on (ob_tokens (observe u s')) (ob_tokens (observe u s)) &&
   eqb_list eqb_on (ob_approved (observe u s')) (ob_approved (observe u s)) = true.
-Proof. intros u s s' H. rewrite same_own_b, same_appr_b by (rewrite H; reflexivity). reflexivity. Qed.
+Proof. intros u s s' Hn H. rewrite same_own_b, same_appr_b by (rewrite ?H; auto). reflexivity. Qed.
 Lemma same_mem_b : forall u s s', (forall a r, has_role s' a r = has_role s a r) ->
   eqb_membership (membership (observe u s')) (membership (observe u s)) = true.
 Proof.
@@ -347,6 +352,16 @@ Lemma no_admin_clause : forall c u s cl,
 Proof.
   intros c u s cl. cbn [observe ob_admin]. destruct (holder (a_rt s)) eqn:E; [reflexivity|].
   destruct (no_admin_step c s cl E) as [H _]. rewrite H. reflexivity.
+Qed.
+
+Lemma appr_lapse : forall (f : nftst) now (n : N) l,
+  eqb_list (fun x o' => match x with None => true | Some _ => eqb_on x o' end)
+    (map (approved_of (now + Z.of_N n) f) l) (map (approved_of now f) l) = true.
+Proof.
+  intros f now n l. induction l as [|t r IH]; [reflexivity|]. cbn [map eqb_list].
+  rewrite IH, andb_true_r. unfold approved_of. destruct (n_appr f t) as [[a lu]|]; [|reflexivity].
+  destruct (lu <? now + Z.of_N n) eqn:E1; [reflexivity|].
+  apply Z.ltb_ge in E1. assert (E2 : (lu <? now) = false) by (apply Z.ltb_ge; lia). rewrite E2. apply eqb_on_refl.
 Qed.
 
 Lemma mon_step_model : forall h s cl,
@@ -426,23 +441,20 @@ Proof.
       rewrite (obs_has_model u s spender _ HC W1), (obs_token_model u s token W3), (obs_appr_model u s token W3).
       rewrite burn_from_closed in E. change (ah_burner h) with (burner c).
       destruct (has_role s spender (burner c)); [|reflexivity]. destruct (has_auth auths spender); [|reflexivity]. cbn [andb] in *.
-      assert (Hap : eqb_on (n_appr (a_nft s) token) (Some spender) =
-                    match n_appr (a_nft s) token with Some ap => N.eqb ap spender | None => false end).
-      { destruct (n_appr (a_nft s) token); reflexivity. }
+      assert (Hap : eqb_on (approved_of (a_now s) (a_nft s) token) (Some spender) =
+                    match approved_of (a_now s) (a_nft s) token with Some ap => N.eqb ap spender | None => false end).
+      { destruct (approved_of (a_now s) (a_nft s) token); reflexivity. }
       rewrite Hap.
-      destruct (N.eqb spender from || match n_appr (a_nft s) token with Some ap => N.eqb ap spender | None => false end); [|reflexivity].
+      destruct (N.eqb spender from || match approved_of (a_now s) (a_nft s) token with Some ap => N.eqb ap spender | None => false end); [|reflexivity].
       cbn [andb] in *. destruct (n_owner (a_nft s) token) as [o|]; [|reflexivity]. cbn [eqb_on]. destruct (N.eqb o from); [discriminate|reflexivity].
-    - (* Approve *) destruct Hwc as [[W1 W2] W3]. rewrite (obs_token_model u s token W3).
-      rewrite approve_closed in E.
-      destruct (has_auth auths approver); [|reflexivity]. cbn [andb] in *.
-      destruct (n_owner (a_nft s) token) as [o|]; [|reflexivity]. cbn [eqb_on]. rewrite N.eqb_sym. destruct (N.eqb approver o); [discriminate|reflexivity].
+    - (* Approve *) reflexivity.
     - (* Advance never fails *) cbn [exec] in E. discriminate. }
   (* successful calls *)
   destruct cl; cbn [wf_call] in Hwc; rewrite ?andb_true_iff, ?inb_In in Hwc.
   - (* Grant *) destruct Hwc as [[W1 W2] W3]. cbn [exec] in E.
     destruct (grant_spec _ _ _ _ _ _ _ HI E) as [_ [_ [[R1 [R2 [R3 R4]]] D]]].
     destruct (grant_guards _ _ _ _ _ _ _ E) as [Ga Gb].
-    rewrite (same_admin_b u s s') by (rewrite R2; reflexivity). rewrite (same_ra_b u s s' R3), (same_tok_b u s s' R4). cbn [andb].
+    rewrite (same_admin_b u s s') by (rewrite R2; reflexivity). rewrite (same_ra_b u s s' R3), (same_tok_b u s s' R1 R4). cbn [andb].
     rewrite (obs_authority_model u s r caller HC W3 W2), Ga, Gb. cbn [andb].
     rewrite !membership_model. rewrite (membership_set_model u (fun a r => has_role s a r) account r true Na Nr W1 W2).
     replace (map (fun r0 => map (fun a => has_role s' a r0) (u_accounts u)) (u_roles u))
@@ -453,7 +465,7 @@ Proof.
   - (* Revoke *) destruct Hwc as [[W1 W2] W3]. cbn [exec] in E.
     destruct (revoke_spec _ _ _ _ _ _ HI E) as [_ [_ [[R1 [R2 [R3 R4]]] D]]].
     destruct (revoke_guards _ _ _ _ _ _ E) as [Ga [Gb Gc]].
-    rewrite (same_admin_b u s s') by (rewrite R2; reflexivity). rewrite (same_ra_b u s s' R3), (same_tok_b u s s' R4). cbn [andb].
+    rewrite (same_admin_b u s s') by (rewrite R2; reflexivity). rewrite (same_ra_b u s s' R3), (same_tok_b u s s' R1 R4). cbn [andb].
     rewrite (obs_authority_model u s r caller HC W3 W2), Ga, Gb, (obs_has_model u s account r HC W1), Gc. cbn [andb].
     rewrite !membership_model. rewrite (membership_set_model u (fun a r => has_role s a r) account r false Na Nr W1 W2).
     replace (map (fun r0 => map (fun a => has_role s' a r0) (u_accounts u)) (u_roles u))
@@ -464,7 +476,7 @@ Proof.
   - (* RenounceRole *) destruct Hwc as [W1 W2]. cbn [exec] in E.
     destruct (renounce_role_spec _ _ _ _ _ HI E) as [_ [_ [[R1 [R2 [R3 R4]]] D]]].
     destruct (renounce_role_guards _ _ _ _ _ E) as [Ga Gc].
-    rewrite (same_admin_b u s s') by (rewrite R2; reflexivity). rewrite (same_ra_b u s s' R3), (same_tok_b u s s' R4). cbn [andb].
+    rewrite (same_admin_b u s s') by (rewrite R2; reflexivity). rewrite (same_ra_b u s s' R3), (same_tok_b u s s' R1 R4). cbn [andb].
     rewrite Ga, (obs_has_model u s caller r HC W2), Gc. cbn [andb].
     rewrite !membership_model. rewrite (membership_set_model u (fun a r => has_role s a r) caller r false Na Nr W2 W1).
     replace (map (fun r0 => map (fun a => has_role s' a r0) (u_accounts u)) (u_roles u))
@@ -540,27 +552,26 @@ Proof.
   - (* BurnFrom *) destruct Hwc as [[W1 W2] W3]. rewrite burn_from_closed in E.
     rewrite (obs_has_model u s spender _ HC W1), (obs_token_model u s token W3), (obs_appr_model u s token W3). change (ah_burner h) with (burner c).
     destruct (has_role s spender (burner c)); [|discriminate]. destruct (has_auth auths spender); [|discriminate]. cbn [andb] in *.
-    assert (Hap : eqb_on (n_appr (a_nft s) token) (Some spender) =
-                  match n_appr (a_nft s) token with Some ap => N.eqb ap spender | None => false end).
-    { destruct (n_appr (a_nft s) token); reflexivity. }
+    assert (Hap : eqb_on (approved_of (a_now s) (a_nft s) token) (Some spender) =
+                  match approved_of (a_now s) (a_nft s) token with Some ap => N.eqb ap spender | None => false end).
+    { destruct (approved_of (a_now s) (a_nft s) token); reflexivity. }
     rewrite Hap.
-    destruct (N.eqb spender from || match n_appr (a_nft s) token with Some ap => N.eqb ap spender | None => false end); [|discriminate].
+    destruct (N.eqb spender from || match approved_of (a_now s) (a_nft s) token with Some ap => N.eqb ap spender | None => false end); [|discriminate].
     cbn [andb] in *. destruct (n_owner (a_nft s) token) as [o|]; [|discriminate]. destruct (N.eqb_spec o from); [|discriminate]. subst o.
     inversion E; subst s'; clear E.
     rewrite (same_mem_b u s) by reflexivity. rewrite (same_admin_b u s) by reflexivity. rewrite (same_ra_b u s) by reflexivity. cbn [andb].
     cbn [eqb_on]. rewrite N.eqb_refl. cbn [Bool.eqb andb].
     rewrite (obs_token_model u _ token W3). unfold burnt. cbn [set_nft a_nft n_owner]. rewrite upd_eq. reflexivity.
-  - (* Approve *) destruct Hwc as [[W1 W2] W3]. rewrite approve_closed in E. rewrite (obs_token_model u s token W3).
-    destruct (has_auth auths approver); [|discriminate]. cbn [andb] in *.
-    destruct (n_owner (a_nft s) token) as [o|] eqn:Eo; [|discriminate]. destruct (N.eqb_spec approver o); [|discriminate]. subst o.
-    inversion E; subst s'; clear E.
-    rewrite (same_mem_b u s) by reflexivity. rewrite (same_admin_b u s) by reflexivity. rewrite (same_ra_b u s) by reflexivity.
-    rewrite (same_own_b u s) by reflexivity. cbn [andb].
-    cbn [eqb_on]. rewrite N.eqb_refl. cbn [Bool.eqb andb].
-    rewrite (obs_appr_model u _ token W3). cbn [set_nft a_nft n_appr]. rewrite upd_eq. apply eqb_on_refl.
+  - (* Approve *) destruct Hwc as [[W1 W2] W3].
+    destruct (approve_guards _ _ _ _ _ _ _ _ E) as [G1 [G2 [G3 [G4 [G5 [G6 [G7 G8]]]]]]].
+    rewrite (same_mem_b u s) by (intros; unfold has_role; destruct G7 as [-> _]; reflexivity).
+    rewrite (same_admin_b u s) by (rewrite G5; reflexivity). rewrite (same_ra_b u s s' G6). rewrite (same_own_b u s s' G4). cbn [andb].
+    rewrite G1, (obs_token_model u s token W3), G2, eqb_on_refl. cbn [andb].
+    rewrite (obs_appr_model u s' token W3), G8. apply eqb_on_refl.
   - (* Advance *) cbn [exec] in E. inversion E; subst s'.
     rewrite (same_mem_b u s) by reflexivity. rewrite (same_admin_b u s) by reflexivity.
-    rewrite (same_ra_b u s) by reflexivity. rewrite (same_tok_b u s) by reflexivity. reflexivity.
+    rewrite (same_ra_b u s) by reflexivity. rewrite (same_own_b u s) by reflexivity. cbn [andb].
+    cbn [observe ob_approved a_now a_nft]. apply appr_lapse.
 Qed.
 
 Lemma mon_model : forall h cs s i,
@@ -574,6 +585,96 @@ Proof.
   apply IH; auto.
   - pose proof (step_spec (ah_cfg h) s cl HI) as [HI' _]. rewrite E in HI'. exact HI'.
   - pose proof (Cl_step (ah_cfg h) (ah_u h) s cl Hw1 HI HC) as HC'. rewrite E in HC'. exact HC'.
+Qed.
+
+(* ---- the allow-list contract ---- *)
+Lemma eqb_lb_refl : forall l, eqb_list Bool.eqb l l = true.
+Proof. intros l. apply eqb_list_refl. intros []; reflexivity. Qed.
+Lemma eqb_alobs_refl : forall a, eqb_alobs a a = true.
+Proof. intros [a l]. unfold eqb_alobs. cbn. rewrite eqb_aobs_refl, eqb_lb_refl. reflexivity. Qed.
+
+Lemma al_diff_model : forall c u cs s i, al_diff_from c u s (al_model_items c u s cs) i = 0%N.
+Proof.
+  intros c u cs. induction cs as [|cl r IH]; intros s i; [reflexivity|].
+  cbn [al_model_items]. destruct (al_step c s cl) as [s' ok] eqn:E. cbn [al_diff_from]. rewrite E.
+  rewrite eqb_reflx, eqb_alobs_refl. cbn [andb]. apply IH.
+Qed.
+
+Lemma al_mon_step_model : forall h s cl,
+  wf_aheader (alh h) = true -> wf_alcall (ah_u (alh h)) cl = true ->
+  Proofs.Access.Inv (al_s s) -> Cl (ah_u (alh h)) (al_s s) ->
+  al_mon_step h (al_observe (ah_u (alh h)) s)
+    (cl, snd (al_step (alh_cfg h) s cl), al_observe (ah_u (alh h)) (fst (al_step (alh_cfg h) s cl))) = true /\
+  Proofs.Access.Inv (al_s (fst (al_step (alh_cfg h) s cl))) /\ Cl (ah_u (alh h)) (al_s (fst (al_step (alh_cfg h) s cl))).
+Proof.
+  intros h s cl Hwf Hw HI HC. destruct (wf_parts (alh h) Hwf) as [Na [Nr _]].
+  set (u := ah_u (alh h)) in *.
+  assert (Guarded : forall user op au v,
+    inb user (u_accounts u) && inb op (u_accounts u) = true ->
+    let r := if manager_guard (alh_cfg h) s op au
+             then ({| al_s := al_s s; al_allowed := upd (al_allowed s) user v |}, true) else (s, false) in
+    obs_consistent u (fst (al_observe u (fst r)))
+    && eqb_membership (membership (fst (al_observe u (fst r)))) (membership (fst (al_observe u s)))
+    && eqb_on (ob_admin (fst (al_observe u (fst r)))) (ob_admin (fst (al_observe u s)))
+    && eqb_list eqb_on (role_admins (fst (al_observe u (fst r)))) (role_admins (fst (al_observe u s)))
+    && Bool.eqb (snd r) (obs_has u (fst (al_observe u s)) op (alh_manager h) && has_auth au op)
+    && eqb_list Bool.eqb (snd (al_observe u (fst r)))
+         (if snd r then match index_of user (u_accounts u) with Some k => set_nth (snd (al_observe u s)) k v | None => snd (al_observe u s) end
+          else snd (al_observe u s)) = true /\
+    Proofs.Access.Inv (al_s (fst r)) /\ Cl u (al_s (fst r))).
+  { intros user op au v Hin r. apply andb_prop in Hin. destruct Hin as [W1 W2]. rewrite inb_In in W1, W2.
+    assert (Hs : al_s (fst r) = al_s s) by (subst r; destruct (manager_guard (alh_cfg h) s op au); reflexivity).
+    split; [|rewrite Hs; auto].
+    unfold al_observe. cbn [fst snd]. rewrite Hs.
+    rewrite (obs_consistent_model u _ HI HC Na Nr), eqb_membership_refl, eqb_on_refl.
+    rewrite (eqb_list_refl _ eqb_on) by apply eqb_on_refl. cbn [andb].
+    rewrite (obs_has_model u (al_s s) op _ HC W2).
+    subst r. unfold manager_guard. cbn [alh_cfg al_manager].
+    destruct (has_role (al_s s) op (alh_manager h) && has_auth au op); cbn [fst snd Bool.eqb andb al_allowed].
+    - destruct (index_of_in user _ W1) as [k Ek]. rewrite Ek.
+      erewrite set_nth_map; [|exact Na|exact Ek]. unfold upd. apply eqb_lb_refl.
+    - apply eqb_lb_refl. }
+  destruct cl as [c|user op au|user op au]; cbn [wf_alcall] in Hw.
+  - subst u. cbn [al_step]. pose proof (mon_step_model (alh h) (al_s s) c Hwf Hw HI HC) as M.
+    pose proof (step_spec (ah_cfg (alh h)) (al_s s) c HI) as [HI' _].
+    pose proof (Cl_step (ah_cfg (alh h)) (ah_u (alh h)) (al_s s) c Hw HI HC) as HC'.
+    cbn [alh_cfg al_c]. destruct (Access.step (ah_cfg (alh h)) (al_s s) c) as [s' ok] eqn:E. cbn [fst snd] in *.
+    split; [|split; assumption].
+    unfold al_mon_step, al_observe. cbn [fst snd al_s al_allowed]. rewrite M. apply eqb_lb_refl.
+  - cbn [al_step]. exact (Guarded user op au true Hw).
+  - cbn [al_step]. exact (Guarded user op au false Hw).
+Qed.
+
+Lemma al_mon_model : forall h cs s i,
+  wf_aheader (alh h) = true -> forallb (wf_alcall (ah_u (alh h))) cs = true ->
+  Proofs.Access.Inv (al_s s) -> Cl (ah_u (alh h)) (al_s s) ->
+  al_mon_from h (al_observe (ah_u (alh h)) s) (al_model_items (alh_cfg h) (ah_u (alh h)) s cs) i = 0%N.
+Proof.
+  intros h cs. induction cs as [|cl r IH]; intros s i Hwf Hw HI HC; [reflexivity|].
+  cbn [forallb] in Hw. apply andb_prop in Hw. destruct Hw as [Hw1 Hw2].
+  cbn [al_model_items]. destruct (al_mon_step_model h s cl Hwf Hw1 HI HC) as [M [HI' HC']].
+  destruct (al_step (alh_cfg h) s cl) as [s' ok] eqn:E. cbn [fst snd] in *. cbn [al_mon_from]. rewrite M. cbn [snd].
+  apply IH; auto.
+Qed.
+
+Theorem check_model_allow : forall h cs,
+  wf_aheader (alh h) = true -> wf_alheader h = true -> forallb (wf_alcall (ah_u (alh h))) cs = true ->
+  check (observe_model_allow h cs) = (0%N, 0%N, 0%N).
+Proof.
+  intros h cs Hwf Hwa Hw. unfold check, observe_model_allow. rewrite Hwf, Hwa, eqb_alobs_refl. cbn [andb].
+  rewrite al_diff_model.
+  destruct (wf_parts (alh h) Hwf) as [Na [Nr _]].
+  unfold wf_alheader in Hwa. destruct (ah_admin (alh h)) as [adm|] eqn:Ea; [|discriminate].
+  rewrite !andb_true_iff in Hwa. destruct Hwa as [[A1 A2] A3].
+  set (g := Grant (alh_macct h) (alh_manager h) adm [adm]).
+  assert (Hg : wf_call (ah_u (alh h)) g = true).
+  { unfold g. cbn [wf_call]. unfold inb. rewrite A1, A2, A3. reflexivity. }
+  assert (HI : Proofs.Access.Inv (al_s (alh_init h))).
+  { unfold alh_init, al_init. rewrite Ea. cbn [al_s alh_cfg al_c al_manager]. apply step_spec. apply Proofs.Access.inv_init. }
+  assert (HC : Cl (ah_u (alh h)) (al_s (alh_init h))).
+  { unfold alh_init, al_init. rewrite Ea. cbn [al_s alh_cfg al_c al_manager]. apply Cl_step; [exact Hg|apply Proofs.Access.inv_init|apply Cl_init]. }
+  unfold al_observe at 1. cbn [fst]. rewrite (obs_consistent_model _ _ HI HC Na Nr).
+  rewrite (al_mon_model h cs (alh_init h) 0%N Hwf Hw HI HC). reflexivity.
 Qed.
 
 (* ---- the ownable half ---- *)
